@@ -78,7 +78,13 @@ var ledgerSpecs = []ledgerSpec{
 		}
 		// node 0 holds a stale overdrawing side tip (mx on p1) while node 1's chain p2..p4 grows past it
 		stale := []string{"P:0:p1", "D:1:0", "X:0:mx", "P:1:p2", "P:1:p3", "P:1:p4", "D:0:2", "D:0:3", "D:0:4"}
+		cfl := func(l string) ledger.TxSpec { return ledger.TxSpec{Label: l, From: "R", To: "B", Data: "filler"} }
+		// A received 6 (checkpointed by the first truncation), spent exactly 6 (tz) and was checkpointed again;
+		// a further spend of 6 by A (tz2) must then be dropped, not built upon
+		dbl := []string{"P:0:t1", "P:0:c1", "P:0:c2", "P:0:c3", "T:0", "P:0:tz", "P:0:c4", "P:0:c5", "P:0:c6", "T:0"}
 		return []ledgerRun{
+			{"drained-wallet-after-two-truncations", ledger.Cfg{Nodes: []string{"G"}, Supply: sp(10, 0), Menu: []ledger.TxSpec{tx("tz2", "A", "B", 6, 0), cfl("c7"), cfl("c8")},
+				Hidden: []ledger.TxSpec{t1, tx("tz", "A", "B", 6, 0), cfl("c4"), cfl("c5"), cfl("c6")}, Truncate: true, Prefix: dbl, Props: only("C01")}, 3, 0, 0},
 			{"stale-side-tip+truncate", ledger.Cfg{Nodes: []string{"G", "N1"}, Supply: sp(10, 0), Menu: []ledger.TxSpec{t1, t3}, Hidden: []ledger.TxSpec{mx}, MaxProposeNodes: 1, Truncate: true, Prefix: stale, Props: only("C01")}, d - 2, 0, 0},
 			{"two-nodes+overdraw+truncate", ledger.Cfg{Nodes: []string{"G", "N1"}, Supply: sp(10, 0), Menu: []ledger.TxSpec{t1, t2, t3}, Crafted: []ledger.TxSpec{mx}, Truncate: true, Props: only("C01")}, d, 0, 0},
 			{"trusted-sealer", ledger.Cfg{Nodes: []string{"G"}, Supply: sp(10, 0), Menu: []ledger.TxSpec{t1, t3}, Crafted: []ledger.TxSpec{mx}, TrustedCraf: []ledger.TxSpec{my}, Props: only("C01")}, d, 0, 0},
